@@ -687,7 +687,7 @@ func genHistCase(t *rapid.T) HistCase {
 
 func TestHistory(t *testing.T) {
 	pbt.Run(t, pbt.Sub[HistCase]{
-		Name: "history", Quick: 60000, Thorough: 2500000,
+		Name: "history", Quick: 60000, Thorough: 2000000,
 		Gen:   genHistCase,
 		Check: checkHistory,
 	})
